@@ -15,3 +15,8 @@ MUTATIONS = [
 CONTROLS = [
     ("C09", "log-message-reworded", [(PIPE, "\"An exception occurred while rendering a resource: %r\"", "\"An exception occurred while rendering the resource: %r\"")]),
 ]
+
+MUTATIONS += [
+    ("C09", "pipe-interest-end-fires-twice", [(PIPE, "                    lambda e: ((callback(), False) if e.is_last else (None, True))[1],", "                    lambda e: ((callback(), True) if e.is_last else (None, True))[1],")]),
+    ("C09", "pipe-unregister-does-not-end", [(PIPE, "        if not self._any_interest():\n            self._end()\n\n    def on_interest_end", "        if not self._any_interest() and not self._event_callbacks:\n            self._end()\n\n    def on_interest_end")]),
+]
